@@ -150,7 +150,7 @@ func otherPasswords(t *rapid.T, pw []byte) [][]byte {
 		add(f)
 		add([]byte{})
 	}
-	add([]byte(string([]rune(string(pw)))))         // invalid UTF-8 replaced by U+FFFD
+	add([]byte(string([]rune(string(pw)))))          // invalid UTF-8 replaced by U+FFFD
 	add([]byte(strings.ToValidUTF8(string(pw), ""))) // invalid UTF-8 dropped
 	add([]byte(strings.ToUpper(string(pw))))
 	add([]byte(strings.ToLower(string(pw))))
